@@ -200,6 +200,11 @@ func runContracts(eng *Engine, prop, fnFilter, work string, timeout time.Duratio
 			defer wg.Done()
 			sem <- struct{}{}
 			defer func() { <-sem }()
+			if j.o.Static {
+				results[i] = OblResult{Name: j.o.Name, Kind: j.o.Kind, Func: j.o.Func, Where: j.o.Where, Desc: j.o.Desc,
+					Verdict: j.o.Verdict, Solver: j.o.Solver, Props: j.o.Props, Model: j.o.Model, Raw: j.o.Raw}
+				return
+			}
 			q := j.vc.query(j.o)
 			var vals []string
 			names := map[string]string{}
@@ -303,6 +308,9 @@ func printRun(run *Run, verbose bool) {
 	for _, o := range run.Obls {
 		if verbose || (o.Verdict != "discharged" && o.Verdict != "covered" && o.Verdict != "unreachable") {
 			fmt.Printf("OBL %-15s %s [%s %.2fs %dB] %s\n", o.Verdict, o.Name, o.Solver, o.Secs, o.Bytes, o.Desc)
+			if o.Kind == "shape" || o.Kind == "emits" {
+				fmt.Printf("      %s\n", strings.ReplaceAll(trunc(o.Raw, 900), "\n", "\n      "))
+			}
 			if o.Verdict == "failed" {
 				keys := make([]string, 0, len(o.Model))
 				for k := range o.Model {
